@@ -2,10 +2,268 @@ package main
 
 import (
 	"fmt"
+	"io/fs"
 	"os"
+	"os/exec"
+	"path/filepath"
+	"sort"
+	"strings"
+	"time"
 )
 
+// cmdSelftest validates the machinery itself.
+//
+//	selftest instrument            the repository's tests pass on the instrumented copy under opposite map orders
+//	selftest determinism [ID...]   same seeds, several processes / worker counts / GOMAXPROCS: identical event logs
+//	selftest mutants [ID...]       every patch in mutants/breaking is reported by its property's check,
+//	                               no patch in mutants/benign is
 func cmdSelftest(kind string, args []string) int {
-	fmt.Fprintln(os.Stderr, "selftest", kind, "not implemented yet")
+	switch kind {
+	case "instrument":
+		return selftestInstrument()
+	case "determinism":
+		return selftestDeterminism(args)
+	case "mutants":
+		return selftestMutants(args)
+	}
+	fmt.Fprintln(os.Stderr, "unknown selftest", kind)
 	return 2
+}
+
+func selftestInstrument() int {
+	sc, err := prepare()
+	if err != nil {
+		fmt.Fprintln(os.Stderr, "infrastructure:", err)
+		return 2
+	}
+	defer sc.cleanup()
+	// a tiny init file lets the repository's own tests choose the default map order
+	hook := `package zzsimrt
+
+import "os"
+
+func init() {
+	switch os.Getenv("ZZSIM_MAPORDER") {
+	case "asc":
+		DefaultMapOrder = 1
+	case "desc":
+		DefaultMapOrder = 2
+	}
+}
+`
+	if err := os.WriteFile(filepath.Join(sc.src, "zzsimrt", "zz_env.go"), []byte(hook), 0o644); err != nil {
+		fmt.Fprintln(os.Stderr, err)
+		return 2
+	}
+	rc := 0
+	for _, order := range []string{"native", "asc", "desc"} {
+		cmd := exec.Command("go", "test", "-vet=off", "-count=1", "./...")
+		cmd.Dir = sc.src
+		cmd.Env = append(goEnv(), "ZZSIM_MAPORDER="+order)
+		out, err := cmd.CombinedOutput()
+		fails := 0
+		for _, l := range strings.Split(string(out), "\n") {
+			if strings.HasPrefix(l, "FAIL") || strings.HasPrefix(l, "--- FAIL") || strings.HasPrefix(l, "panic:") {
+				fails++
+				fmt.Println("  ", l)
+			}
+		}
+		fmt.Printf("repository tests on the instrumented copy, map order %s: err=%v failing lines=%d\n", order, err, fails)
+		if err != nil || fails > 0 {
+			rc = 1
+		}
+	}
+	return rc
+}
+
+func selftestMutants(only []string) int {
+	want := map[string]bool{}
+	for _, a := range only {
+		want[strings.ToUpper(a)] = true
+	}
+	rc := 0
+	type row struct{ kind, name, prop, verdict string }
+	var rows []row
+	for _, kind := range []string{"breaking", "benign"} {
+		dir := filepath.Join(verifDir(), "mutants", kind)
+		ents, _ := os.ReadDir(dir)
+		var names []string
+		for _, e := range ents {
+			if strings.HasSuffix(e.Name(), ".patch") {
+				names = append(names, e.Name())
+			}
+		}
+		sort.Strings(names)
+		for _, n := range names {
+			prop := strings.ToUpper(strings.SplitN(n, "-", 2)[0])
+			if len(want) > 0 && !want[prop] {
+				continue
+			}
+			code, out, err := runOnPatchedCopy(filepath.Join(dir, n), prop)
+			v := "?"
+			switch {
+			case err != nil:
+				v = "ERROR " + err.Error()
+				rc = 2
+			case kind == "breaking" && code == 1:
+				v = "detected"
+			case kind == "breaking":
+				v = fmt.Sprintf("MISSED (exit %d)", code)
+				rc = 1
+			case kind == "benign" && code == 0:
+				v = "quiet"
+			default:
+				v = fmt.Sprintf("FALSE ALARM (exit %d)", code)
+				rc = 1
+			}
+			rows = append(rows, row{kind, n, prop, v})
+			fmt.Printf("%-9s %-60s %s\n", kind, n, v)
+			if strings.HasPrefix(v, "MISSED") || strings.HasPrefix(v, "FALSE") || strings.HasPrefix(v, "ERROR") {
+				fmt.Println(indent(lastLines(out, 12)))
+			}
+		}
+	}
+	return rc
+}
+
+func indent(s string) string { return "    " + strings.ReplaceAll(s, "\n", "\n    ") }
+
+func lastLines(s string, n int) string {
+	l := strings.Split(strings.TrimSpace(s), "\n")
+	if len(l) > n {
+		l = l[len(l)-n:]
+	}
+	return strings.Join(l, "\n")
+}
+
+// runOnPatchedCopy copies /repo to a scratch directory, applies the patch there
+// and runs the property's quick check against the copy.
+func runOnPatchedCopy(patch, prop string) (int, string, error) {
+	dir, err := os.MkdirTemp(os.TempDir(), "verif-mutant-")
+	if err != nil {
+		return 0, "", err
+	}
+	defer os.RemoveAll(dir)
+	if err := copyTree(repoDir(), dir, func(rel string, d fs.DirEntry) bool { return rel == ".git" }); err != nil {
+		return 0, "", err
+	}
+	ap := exec.Command("patch", "-p1", "-s", "-i", patch)
+	ap.Dir = dir
+	if out, err := ap.CombinedOutput(); err != nil {
+		return 0, string(out), fmt.Errorf("patch does not apply: %v %s", err, trimStr(string(out), 200))
+	}
+	self, _ := os.Executable()
+	cmd := exec.Command(self, "check", prop, "--tier", "quick")
+	cmd.Env = append(os.Environ(), "VERIF_REPO="+dir, "VERIF_EVIDENCE_DIR="+filepath.Join(dir, "zz-evidence"), "VERIF_REPLAY_DIR="+filepath.Join(dir, "zz-replays"))
+	out, err := cmd.CombinedOutput()
+	code := 0
+	if ee, ok := err.(*exec.ExitError); ok {
+		code = ee.ExitCode()
+	} else if err != nil {
+		return 0, string(out), err
+	}
+	return code, string(out), nil
+}
+
+func selftestDeterminism(args []string) int {
+	ids := args
+	if len(ids) == 0 {
+		for id := range props {
+			ids = append(ids, id)
+		}
+		sort.Strings(ids)
+	}
+	sc, err := prepare()
+	if err != nil {
+		fmt.Fprintln(os.Stderr, "infrastructure:", err)
+		return 2
+	}
+	defer sc.cleanup()
+	rc := 0
+	base := envSeed()
+	nSeeds := envInt("VERIF_DET_SEEDS", 32)
+	for _, id := range ids {
+		id = strings.ToUpper(id)
+		known, _ := loadKnown(id)
+		t0 := time.Now()
+		// reference logs: one process per index
+		type cfg struct {
+			gomaxprocs string
+			batchSize  int
+		}
+		cfgs := []cfg{{"1", 1}, {"4", 1}, {"16", 1}, {"2", 8}, {"16", 32}}
+		var ref []string
+		bad := 0
+		procs := 0
+		for ci, c := range cfgs {
+			os.Setenv("VERIF_WORKER_GOMAXPROCS", c.gomaxprocs)
+			logs := make([]string, nSeeds)
+			for from := 0; from < nSeeds; from += c.batchSize {
+				to := from + c.batchSize
+				if to > nSeeds {
+					to = nSeeds
+				}
+				w, err := startWorker(sc)
+				if err != nil {
+					fmt.Fprintln(os.Stderr, err)
+					return 2
+				}
+				procs++
+				w.send(request{Op: "run", Prop: id, Base: base, From: from, To: to, Tier: "quick", Known: known, Log: true})
+				for {
+					e, ok, stalled := w.next(opTimeout())
+					if !ok || stalled {
+						fmt.Fprintf(os.Stderr, "worker died/stalled in determinism test of %s\n", id)
+						return 2
+					}
+					if e.Ev == "result" {
+						r := e.Result
+						logs[e.Index] = fmt.Sprintf("%s|%s|%d|%s|%s", r.Status, r.Class, r.Steps, r.Fingerprint, strings.Join(r.Log, ";"))
+					}
+					if e.Ev == "done" {
+						break
+					}
+				}
+				w.close()
+			}
+			if ci == 0 {
+				ref = logs
+				continue
+			}
+			for i := range logs {
+				if logs[i] != ref[i] {
+					bad++
+					if bad <= 3 {
+						a, b := diffCtx(ref[i], logs[i])
+						fmt.Printf("%s: run %d differs between configuration 0 and %d\n  %s\n  %s\n", id, i, ci, a, b)
+					}
+				}
+			}
+		}
+		os.Unsetenv("VERIF_WORKER_GOMAXPROCS")
+		fmt.Printf("%s: %d seeds x %d configurations (%d worker processes, GOMAXPROCS 1/4/16/2/16, batch sizes 1/1/1/8/32): %d differing logs (%.1fs)\n",
+			id, nSeeds, len(cfgs), procs, bad, time.Since(t0).Seconds())
+		if bad > 0 {
+			rc = 1
+		}
+	}
+	return rc
+}
+
+func diffCtx(a, b string) (string, string) {
+	i := 0
+	for i < len(a) && i < len(b) && a[i] == b[i] {
+		i++
+	}
+	cut := func(s string) string {
+		lo, hi := i-40, i+80
+		if lo < 0 {
+			lo = 0
+		}
+		if hi > len(s) {
+			hi = len(s)
+		}
+		return fmt.Sprintf("@%d %q", i, s[lo:hi])
+	}
+	return cut(a), cut(b)
 }
